@@ -125,6 +125,11 @@ def check_op_object(op, spec):
                 bad("inner_signature:inputs", f"inner inputs {r[1].input}, specification {sig['inner'][0]}")
             if [tok(t) for t in r[1].output] != [rtok(t) for t in sig["inner"][1]]:
                 bad("inner_signature:outputs", f"inner outputs {r[1].output}, specification {sig['inner'][1]}")
+            if k == "DFG":
+                # "a DFG's outer signature equals its body's": the requirement set is part of the signature
+                ro = _try(lambda: op.outer_signature())
+                if ro[0] == "ok" and (sorted(r[1].runtime_reqs) != sorted(spec[3]) or sorted(ro[1].runtime_reqs) != sorted(spec[3])):
+                    bad("inner_signature:runtime_reqs", f"DFG with requirement set {spec[3]}: inner_signature() has {r[1].runtime_reqs}, outer_signature() has {ro[1].runtime_reqs}")
     # ---- per-successor / per-case rows
     if sig["nth"] is not None:
         meth = "nth_inputs" if k == "Conditional" else "nth_outputs"
